@@ -11,6 +11,7 @@
 import MTVerif.Model.Render
 import MTVerif.Model.TdSize
 import MTVerif.Lemmas.EvalAnno
+import MTVerif.Lemmas.EvalTD
 namespace MT.C11
 open MT MT.Render
 
@@ -104,6 +105,116 @@ theorem td_fields_imported (nm : Names) (req opt : List (String × Ty)) (k : Str
   · exact Or.inl (importsF_mem nm req k t h i hi)
   · exact Or.inr (importsF_mem nm opt k t h i hi)
 
+
+/-! ### the full statement: generated TypedDict classes included -/
+
+/-- C11, denotation, with generated TypedDict classes (the statement `RenderedDenotes` above, with `evalT` / `renderT` for
+    `evalWithClasses` / `renderWithClasses`, under its decidable side conditions).  For every well-formed type `t` (TypedDict
+    keys distinct), class-name hint, name table, strip list `mods` for the annotation and strip lists `sm ft` for the
+    fields of the generated classes; every stub namespace `ns` and class environment `env` (the generated classes of the
+    whole stub, in the order the stub defines them) such that
+    * each class generated for `t` is what its name denotes once the stub has been executed (`ClassesIn`: no later
+      definition of that name is a different class — the open finding KF-C11-td-class-name-collision is exactly its failure),
+    * every other name the annotation or a field annotation uses denotes what was rendered and is not shadowed by a generated
+      class, and no TypedDict is empty (`namesOkT`),
+    the annotation — `ReplaceTypedDictsWithStubs`, rendered, module prefixes stripped — evaluates, following forward
+    references as deep as TypedDicts nest in `t`, to a type with exactly the members of `t` (both readings of `Any`). -/
+theorem rendered_denotes (sub : ClassId → ClassId → Bool) (ao : Bool) (ns : NS) (nm : Names) (sm : Ty → List (List String))
+    (env : List ClassDef) (mods : List (List String)) (hint : String) (t : Ty) (n : Nat)
+    (hd : tdDepth t ≤ n) (hw : t.wf = true) (hcl : ClassesIn env (classesT nm sm hint t))
+    (hn : namesOkT ns (hasC env) nm sm mods t = true) :
+    ∃ t', evalT ns env n (stripE mods (renderT nm hint t)) = some t' ∧ ∀ v, conforms sub ao t' v = conforms sub ao t v := by
+  obtain ⟨t', he, _, hs⟩ := eval_renderT sub ao ns nm sm env t mods hint n hd hw hcl hn
+  exact ⟨t', he, hs⟩
+
+/-- a sufficient condition for `ClassesIn`: the stub's class environment contains the generated classes and never defines one
+    name in two different ways (identical repetitions — the same TypedDict under the same parameter name in two functions —
+    are harmless) -/
+theorem classesIn_of_functional (env cs : List ClassDef) (hsub : ∀ d ∈ cs, d ∈ env)
+    (hfun : ∀ d₁ ∈ env, ∀ d₂ ∈ env, d₁.name = d₂.name → d₁ = d₂) : ClassesIn env cs := by
+  intro d hd
+  have hmem : d ∈ env.reverse := List.mem_reverse.mpr (hsub d hd)
+  unfold lookupC
+  cases hf : env.reverse.find? (fun d' => d'.name == d.name) with
+  | none =>
+    have := List.find?_eq_none.mp hf d hmem
+    simp at this
+  | some d' =>
+    have h1 : d' ∈ env := List.mem_reverse.mp (List.mem_of_find?_eq_some hf)
+    have h2 : d'.name = d.name := by simpa using List.find?_some hf
+    rw [hfun d' h1 d (hsub d hd) h2]
+
+mutual
+/-- the generated classes carry exactly the names of `tdNames` (the model of the class-name scheme that `hasNameCollision`
+    inspects), in the same order -/
+theorem classesT_names (nm : Names) (sm : Ty → List (List String)) : ∀ (hint : String) (t : Ty),
+    (classesT nm sm hint t).map (·.name) = tdNames hint t
+  | _, .any | _, .cls _ | _, .typeOf _ | _, .callable => by simp [classesT, tdNames]
+  | hint, .list a | hint, .set a | hint, .iterator a | hint, .tupleOf a => by
+      simp only [classesT, tdNames]; exact classesT_names nm sm hint a
+  | hint, .dict a b | hint, .ddict a b => by
+      simp only [classesT, tdNames, List.map_append, classesT_names nm sm hint a, classesT_names nm sm _ b]
+  | hint, .generator a b c => by
+      simp only [classesT, tdNames, List.map_append, classesT_names nm sm hint a, classesT_names nm sm _ b, classesT_names nm sm _ c]
+  | hint, .tuple ts | hint, .union ts => by simp only [classesT, tdNames]; exact classesTL_names nm sm hint 0 ts
+  | hint, .td req opt => by
+      match req, opt with
+      | [], [] => simp [classesT, tdNames]
+      | r :: rs, [] => simp [classesT, tdNames, classesF_names nm sm (r :: rs)]
+      | [], o :: os => simp [classesT, tdNames, classesF_names nm sm (o :: os)]
+      | r :: rs, o :: os => simp [classesT, tdNames, classesF_names nm sm (r :: rs), classesF_names nm sm (o :: os)]
+theorem classesTL_names (nm : Names) (sm : Ty → List (List String)) : ∀ (hint : String) (i : Nat) (ts : List Ty),
+    (classesTL nm sm hint i ts).map (·.name) = tdNamesL hint i ts
+  | _, _, [] => by simp [classesTL, tdNamesL]
+  | hint, i, t :: ts => by
+      simp only [classesTL, tdNamesL, List.map_append, classesT_names nm sm _ t, classesTL_names nm sm hint (i + 1) ts]
+theorem classesF_names (nm : Names) (sm : Ty → List (List String)) : ∀ (fs : List (String × Ty)),
+    (classesF nm sm fs).map (·.name) = tdNamesF fs
+  | [] => by simp [classesF, tdNamesF]
+  | (k, t) :: fs => by simp only [classesF, tdNamesF, List.map_append, classesT_names nm sm k t, classesF_names nm sm fs]
+end
+
+mutual
+/-- on a TypedDict-free type the hinted rendering is the plain one (so `rendered_denotes` extends `rendered_denotes_partial`) -/
+theorem renderT_noTD (nm : Names) : ∀ (hint : String) (t : Ty), t.hasTD = false → renderT nm hint t = renderE nm t
+  | _, .any, _ | _, .cls _, _ | _, .typeOf _, _ | _, .callable, _ => by simp [renderT, renderE]
+  | hint, .list a, h | hint, .set a, h | hint, .iterator a, h | hint, .tupleOf a, h => by
+      simp only [Ty.hasTD] at h; simp only [renderT, renderE, renderT_noTD nm hint a h]
+  | hint, .dict a b, h | hint, .ddict a b, h => by
+      simp only [Ty.hasTD, Bool.or_eq_false_iff] at h
+      simp only [renderT, renderE, renderT_noTD nm hint a h.1, renderT_noTD nm _ b h.2]
+  | hint, .generator a b c, h => by
+      simp only [Ty.hasTD, Bool.or_eq_false_iff] at h
+      simp only [renderT, renderE, renderT_noTD nm hint a h.1.1, renderT_noTD nm _ b h.1.2, renderT_noTD nm _ c h.2]
+  | hint, .tuple ts, h => by
+      simp only [Ty.hasTD] at h
+      have hl := renderTL_noTD nm hint 0 ts h
+      cases ts with
+      | nil => simp [renderT, renderE]
+      | cons t ts => simp only [renderT, renderE, hl]
+  | hint, .union ts, h => by
+      simp only [Ty.hasTD] at h
+      have hl := renderTL_noTD nm hint 0 ts h
+      have hn := renderTNN_noTD nm hint 0 ts h
+      unfold renderT renderE
+      rw [hl, hn]
+      split
+      · split <;> split <;> simp_all
+      · rfl
+  | _, .td _ _, h => by simp [Ty.hasTD] at h
+theorem renderTL_noTD (nm : Names) : ∀ (hint : String) (i : Nat) (ts : List Ty), hasTDL ts = false → renderTL nm hint i ts = renderL nm ts
+  | _, _, [], _ => by simp [renderTL, renderL]
+  | hint, i, t :: ts, h => by
+      simp only [hasTDL, Bool.or_eq_false_iff] at h
+      simp only [renderTL, renderL, renderT_noTD nm _ t h.1, renderTL_noTD nm hint (i + 1) ts h.2]
+theorem renderTNN_noTD (nm : Names) : ∀ (hint : String) (i : Nat) (ts : List Ty), hasTDL ts = false →
+    renderTNN nm hint i ts = renderNonNone nm ts
+  | _, _, [], _ => by simp [renderTNN, renderNonNone]
+  | hint, i, t :: ts, h => by
+      simp only [hasTDL, Bool.or_eq_false_iff] at h
+      simp only [renderTNN, renderNonNone, renderT_noTD nm _ t h.1, renderTNN_noTD nm hint (i + 1) ts h.2]
+end
+
 /-! ### non-vacuity of `rendered_denotes_partial`, and the witness of the excluded case -/
 
 def demoNm : Names where
@@ -133,6 +244,44 @@ def clashNS : NS := { imports := [("pkg.utils", "B"), ("typing", "Tuple"), ("uti
 example : namesOk clashNS demoNm [["pkg", "utils"], ["typing"], ["utils"]] (.tuple [.cls 40, .cls 41]) = false := by decide +kernel
 example : (evalE clashNS (stripE [["pkg", "utils"], ["typing"], ["utils"]] (renderE demoNm (.tuple [.cls 40, .cls 41])))).map
     (Ty.beq' · (.tuple [.cls 40, .cls 40])) = some true := by decide +kernel
+
+
+/-! ### non-vacuity of `rendered_denotes`, and the witness of its excluded case -/
+
+/-- `Dict[int, TD{p: int; q?: List[utils.B]}]` under the parameter name `a`: two generated classes, `A2TypedDict__RENAME_ME__`
+    (total, `p`) and `A2TypedDict__RENAME_ME__NonTotal(A2TypedDict__RENAME_ME__, total=False)` (`q`) -/
+def tdTy : Ty := .dict (.cls intC) (.td [("p", .cls intC)] [("q", .list (.cls 40))])
+def tdSm : Ty → List (List String) := fun _ => [["typing"], ["utils"]]
+def tdEnv : List ClassDef := classesT demoNm tdSm "a" tdTy
+def tdNS : NS := { imports := [("mypy_extensions", "TypedDict"), ("typing", "Dict"), ("typing", "List"), ("utils", "B")],
+                   own := "target", inv := demoInv }
+
+example : tdEnv.map (·.name) = ["A2TypedDict__RENAME_ME__", "A2TypedDict__RENAME_ME__NonTotal"] := by decide +kernel
+example : tdDepth tdTy ≤ 2 ∧ tdTy.wf = true ∧ namesOkT tdNS (hasC tdEnv) demoNm tdSm [["typing"], ["utils"]] tdTy = true := by
+  decide +kernel
+example : ClassesIn tdEnv (classesT demoNm tdSm "a" tdTy) := by
+  apply classesIn_of_functional _ _ (fun d hd => hd)
+  intro d₁ h₁ d₂ h₂ hn
+  simp only [tdEnv, tdTy, classesT, classesF, fieldsT, List.nil_append, List.append_nil, List.cons_append,
+    List.mem_cons, List.not_mem_nil, or_false] at h₁ h₂
+  rcases h₁ with rfl | rfl <;> rcases h₂ with rfl | rfl <;> first | rfl | (exfalso; revert hn; decide +kernel)
+/-- … and the model evaluator indeed gives back the TypedDict -/
+example : (evalT tdNS tdEnv 2 (stripE [["typing"], ["utils"]] (renderT demoNm "a" tdTy))).map (Ty.beq' · tdTy) = some true := by
+  decide +kernel
+
+/-- the class-name collision finding, in this model: `f(a={'a': {'a': 1}})` — the nested dict under key `a` and the parameter
+    `a` both give `ATypedDict__RENAME_ME__`; the inner class is not what its name denotes (the outer one is defined later), so
+    `ClassesIn` fails — and the annotation evaluates to no type at all at any depth tried (the class refers to itself) -/
+def collTy : Ty := .td [("a", .td [("a", .cls intC)] [])] []
+def collEnv : List ClassDef := classesT demoNm tdSm "a" collTy
+def collInner : ClassDef := { name := tdClassName "a", base := none, total := true, fields := fieldsT demoNm tdSm [("a", .cls intC)] }
+example : ¬ ClassesIn collEnv (classesT demoNm tdSm "a" collTy) := by
+  intro h
+  have hm : collInner ∈ classesT demoNm tdSm "a" collTy := by simp [collTy, collInner, classesT, classesF]
+  have h2 := congrArg (fun o => o.map (fun d => match d.fields with | [(_, .str _)] => true | _ => false)) (h _ hm)
+  revert h2
+  decide +kernel
+example : evalT tdNS collEnv 6 (stripE [["typing"]] (renderT demoNm "a" collTy)) = none := by decide +kernel
 
 /-! the witnesses of the open findings, in the model -/
 example : hasNameCollision (tdNames "a" (.tuple [.tuple [.cls intC, .td [("p", .cls intC)] []], .td [("q", .cls strC)] []])) = true := by
